@@ -6,17 +6,33 @@ static double wfun(int Z, int line, xrl_error **e) {
   double edge = EdgeEnergy(Z, curshell, NULL);
   return CS_FluorLine(Z, line, edge + 0.1, e);
 }
+/* every (Z, macro) is asked once before the judged rows are computed (first pass, kept) and twice back to back after them: number of macros for which the three
+ * answers (value bits, error or not) are not the same.  The judged row itself sits between them, so an answer that depends on what was asked before shows either
+ * in the row (against the specification) or here. */
+static double first_v[2][400]; static int first_ok[2][400];
+static void first_pass(int which, xrl_f2 f, int Z, int lo, int hi) { for (int m = lo; m <= hi; m++) { xrl_error *e = NULL; first_v[which][m - lo] = f(Z, m, &e); first_ok[which][m - lo] = e == NULL; xrl_clear_error(&e); } }
+static int repeats(int which, xrl_f2 f, int Z, int lo, int hi) {
+  int bad = 0;
+  for (int m = lo; m <= hi; m++) { xrl_error *e1 = NULL, *e2 = NULL; double v1 = f(Z, m, &e1), v2 = f(Z, m, &e2);
+    if (memcmp(&v1, &v2, 8) || (e1 == NULL) != (e2 == NULL) || memcmp(&v1, &first_v[which][m - lo], 8) || (e1 == NULL) != first_ok[which][m - lo]) bad++;
+    xrl_clear_error(&e1); xrl_clear_error(&e2); }
+  return bad;
+}
 int cmd_c10(int argc, char **argv) {
   int zlo = -1, zhi = 122;
   if (argc >= 2) { zlo = atoi(argv[0]); zhi = atoi(argv[1]); }
+  /* the history every element is asked in: each macro has been answered successfully for another element before */
+  for (int m = -386; m <= 6; m++) { LineEnergy(82, m, NULL); RadRate(82, m, NULL); CS_FluorLine(82, m, 20.0, NULL); LineEnergy(26, m, NULL); RadRate(26, m, NULL); }
   for (int Z = zlo; Z <= zhi; Z++) {
     curZ = Z;
+    first_pass(0, LineEnergy, Z, -386, 6); first_pass(1, RadRate, Z, -386, 6);
     fprintf(OUT, "{\"k\":\"lines\",\"Z\":%d,", Z);
     emit_row("E", LineEnergy, Z, -386, 6); fputc(',', OUT);
     emit_row("RR", RadRate, Z, -386, 6); fputc(',', OUT);
     curshell = L1_SHELL; emit_row("w1", wfun, Z, -113, -30); fputc(',', OUT);
     curshell = L2_SHELL; emit_row("w2", wfun, Z, -113, -30); fputc(',', OUT);
     curshell = L3_SHELL; emit_row("w3", wfun, Z, -113, -30);
+    fprintf(OUT, ",\"repE\":%d,\"repRR\":%d", repeats(0, LineEnergy, Z, -386, 6), repeats(1, RadRate, Z, -386, 6));
     fputs("}\n", OUT);
   }
   return 0;
